@@ -152,7 +152,17 @@ func VerifyAuthRulesAtState(ctx context.Context, sp StateProvider, eventToVerify
 	if ctx.Err() != nil {
 		return fmt.Errorf("gomatrixserverlib.VerifyAuthRulesAtState: context cancelled: %w", ctx.Err())
 	}
-	if err := checkAllowedByAuthEvents(eventToVerify, roomState, nil, userIDForSender); err != nil {
+	// This step is about the state before the event, whatever auth events the event itself names.
+	stateAuth, _ := NewAuthEvents(nil)
+	for _, stateEvent := range roomState {
+		if stateEvent == nil || stateEvent.StateKey() == nil {
+			continue
+		}
+		if err = stateAuth.AddEvent(stateEvent); err != nil {
+			return fmt.Errorf("gomatrixserverlib.VerifyAuthRulesAtState: %w", err)
+		}
+	}
+	if err := Allowed(eventToVerify, stateAuth, userIDForSender); err != nil {
 		return fmt.Errorf(
 			"gomatrixserverlib.VerifyAuthRulesAtState: event %s is not allowed at state %s : %w",
 			eventToVerify.EventID(), eventToVerify.EventID(), err,
